@@ -151,6 +151,29 @@ def laws(ivs, times, rng, budget):
         if r == 'assert' or r[0] != r[1]:
             record('action', t=t, a=a, b=b, observed=str(r))
         else: nontriv.add(('act', t, a, b))
+    # tier values far outside the small scope (sub-step counters can be raised by max_loop_iterations, times are unbounded):
+    # the order of tiered times is the order of their tier tuples, whatever the magnitudes; a smaller delay of full cutoff
+    # never yields the later arrival
+    BIG = [0, 1, 2, 255, 256, 1023, 1024, 1025, 65535, 65536, 2 ** 31 - 1, 2 ** 31, 2 ** 63, 2 ** 64 + 1]
+    for L in (1, 2, 3):
+        for _ in range(max(200, budget // 10)):
+            a = tuple(rng.choice(BIG) for _ in range(L)); b = tuple(rng.choice(BIG) for _ in range(L))
+            if rng.random() < 0.3: b = a[:-1] + (rng.choice(BIG),)
+            n += 1
+            r = py(lambda: (TT(*a) < TT(*b), TT(*a) == TT(*b), TT(*a) > TT(*b), TT(*a) <= TT(*b), TT(*a) >= TT(*b)))
+            want = (a < b, a == b, a > b, a <= b, a >= b)
+            if r == 'assert' or tuple(map(bool, r)) != want:
+                record('trichotomy', a=[L, L, a], b=[L, L, b], observed=f'tiered times {a} and {b}: (<, ==, >, <=, >=) = {r}, the tier tuples give {want}'); continue
+            A, B = mk((L, L, a)), mk((L, L, b))
+            q = py(lambda: (A < B, A == B, A > B))
+            if q == 'assert' or tuple(map(bool, q)) != want[:3]:
+                record('trichotomy', a=[L, L, a], b=[L, L, b], observed=f'delays with tiers {a} and {b}: (<, ==, >) = {q}, the tier tuples give {want[:3]}'); continue
+            if want[0]:
+                t = tuple(rng.choice(BIG) for _ in range(L))
+                x = py(lambda: (TT(*t) + A, TT(*t) + B))
+                if x == 'assert' or x[0] > x[1] or not (x[0] < x[1]):
+                    record('smaller_delay_never_later', a=[L, L, a], b=[L, L, b], t=t, observed=str(x))
+                else: nontriv.add(('big', a, b))
     # mixed cutoffs: `<` answers True although the arrival is later (known finding F13)
     mixed = [(a, b) for a in ivs for b in ivs if a[0] == b[0] and len(a[2]) == len(b[2]) and a[1] != b[1]]
     if len(mixed) > budget: mixed = rng.sample(mixed, budget)
@@ -402,6 +425,12 @@ def replay(path, out):
     if r['law'] == 'trichotomy':
         res = py(lambda: (A < B, A == B, A > B, A <= B, A >= B)); print('observed (<,==,>,<=,>=):', res)
         bad = res == 'assert' or sum(map(bool, res[:3])) != 1 or bool(res[3]) != bool(res[0] or res[1]) or bool(res[4]) != bool(res[2] or res[1])
+        ta, tb = tuple(r['a'][2]), tuple(r['b'][2])
+        if len(ta) == len(tb):
+            rt = py(lambda: (TT(*ta) < TT(*tb), TT(*ta) == TT(*tb), TT(*ta) > TT(*tb), TT(*ta) <= TT(*tb), TT(*ta) >= TT(*tb)))
+            want = (ta < tb, ta == tb, ta > tb, ta <= tb, ta >= tb)
+            print('tiered times with these tiers (<,==,>,<=,>=):', rt, 'tier tuples give', want)
+            bad = bad or rt == 'assert' or tuple(map(bool, rt)) != want
     elif r['law'].startswith('smaller'):
         t = TT(*r['t']); u = update_min(A, B); kept = A if u is None else u
         res = (A < B, t + A, t + B, t + kept); print('a<b, t+a, t+b, t+(the one update_min keeps):', res)
